@@ -28,6 +28,16 @@ RULE = ("one case = one configuration: interface (extract_with_config; ParallelA
         "archive through one plain Archive handle (Archive::read_file; never-added names are read sequentially too and yield FileNotFound): result length == request length; slot i's "
         "name == request[i]; slot i's payload == baseline (bytes equal, or the same error variant); with skip_errors a failing name is an Err in its own slot and all other slots are "
         "still right; without it (and for the interfaces that have no such option) the whole call is Err iff some requested name fails; all r repeats return the identical result. "
+        "Further archives: V2 / V3 / V4 built with sector checksums + (attributes) and 512-byte or 4 KiB sectors, V4 with 64 KiB sectors (every single-archive interface, both "
+        "extract_with_config paths). Thread axis of extract_with_config also num_threads = Some(0) (rayon's 'automatic') on the <=1000, >1000 and >5000 paths. "
+        "read_file_with_new_handle called directly by 2-16 std threads sharing one Arc<ParallelArchive> (own or identical lists with duplicates and never-added names; every read "
+        "compared with the baseline). extract_with_config called by two user threads at once on one path with different configurations built with the setters "
+        "threads()/batch_size()/skip_errors(). "
+        "async feature slice (AsyncArchiveReader over a tokio file, reference = the same range of the bytes written): extract_files_concurrent on readable ranges; one range that "
+        "fails on its own (reaching past the end of the file, or above max_decompressed_size of a reader made by with_security_limits) at each position: the call fails as a whole, "
+        "every request alone answers as expected and the reader answers the readable ones afterwards; more than 2 x max_concurrent_extractions requests: refused as a whole or "
+        "answered completely, then exactly 2 x max answered; 3-24 concurrent read_at / read_exact_at tasks with max_concurrent_ops in {1,2,4,10}; operation_timeout in {20 s, 30 s, 1 h}; "
+        "one reader shared by 2-4 OS threads with a current-thread runtime each. "
         "distinct = distinct configuration strings among executed cases with a non-empty request.")
 
 ASSUME = [
@@ -50,6 +60,14 @@ ASSUME = [
     "TSan layer: reports whose stack contains a crossbeam_epoch frame are suppressed (fence-based reclamation inside rayon's dependency, invisible to ThreadSanitizer) and "
     "counted in layers.tsan.reports_suppressed_inside_crossbeam_epoch; any other report is a violation",
     "a multi-thread configuration whose repeats all showed one schedule is counted under no_schedule_diversity: held for the input quantifier, inconclusive for the schedule quantifier",
+    "num_threads = Some(0) is taken as a member of the thread-count axis: the library hands the value to rayon, where 0 means 'choose automatically', so the call is the same request "
+    "as with None",
+    "read_file_with_new_handle walked name by name is judged like a call with error skipping (one slot per name, a failing name is an Err of the same variant in its own slot)",
+    "async slice: a request whose size is above the reader's max_decompressed_size counts as failing on its own (documented refusal); a call with more than "
+    "2 x max_concurrent_extractions requests may be refused as a whole (documented) — only a partial or wrong answer is a violation there; read_at may deliver fewer bytes than the "
+    "buffer holds but never 0 while bytes remain, and never fails for a range past the end; tokio's multi-thread runtime is not among the harness crate's tokio features, real "
+    "overlap comes from OS threads with a current-thread runtime each sharing one reader; operation_timeout is only set to values far above any run time (a timeout that bites "
+    "would make results depend on machine load by design)",
 ]
 
 TSAN_RE = re.compile(r"WARNING: ThreadSanitizer: ([^\(\n]+)")
@@ -188,8 +206,9 @@ def run(tier, seed, scratch, t0):
         asl.update({"cases": ra.cases, "calls": ra.counters.get("async_calls", 0), "slots_compared": ra.counters.get("async_slots_compared", 0), "verdicts": dict(ra.verdicts)})
         res.cases += ra.cases
         res.classes |= ra.classes
-        for k in ("async_calls", "async_slots_compared"):
-            res.add_counter(k, ra.counters.get(k, 0))
+        for k in sorted(ra.counters):
+            if k.startswith("async_"):
+                res.add_counter(k, ra.counters[k])
         for k, v in ra.verdicts.items():
             if k != "viol":
                 res.verdicts[k] = res.verdicts.get(k, 0) + v
